@@ -1,2 +1,124 @@
+/-
+  C04 — read-back to native types (posit clause).
+  `toIeee` is the model of to_double()/to_float() under the guard that all factors and their product are exact
+  (fraction width ≤ mantissa width, scale in the normal exponent range).  Proved here, for every exponent/mantissa
+  width and every triple: the IEEE pattern that is produced denotes exactly the triple's value, and re-extracting its
+  fields (what posit(double) does first) returns the same triple — so the round trip loses nothing before the final
+  `convert_`, whose correctness is C01's obligation.
+-/
 import UVerif.Model.PositConv
-theorem C04_placeholder : True := trivial
+import UVerif.Spec.Ieee
+import UVerifProofs.Lemmas.Pow2
+import UVerifProofs.Lemmas.Ieee
+
+open UVerif UVerif.Posit
+
+/-- pack a (sign, scale, fraction on fb bits) triple as an IEEE pattern — the non-special branch of `toIeee` -/
+def packIeee (eb mb : Nat) (s : Bool) (scale : Int) (fb frac : Nat) : Nat :=
+  (if s then 1 else 0) * 2 ^ (eb + mb) + (scale + ((2 : Int) ^ (eb - 1) - 1)).toNat * 2 ^ mb + frac * 2 ^ (mb - fb)
+
+/-- Re-extraction of a packed normal number returns the triple it was built from (fraction left-aligned to mb bits):
+    all eb, mb, fb ≤ mb, frac < 2^fb, biased exponent in [1, 2^eb − 2]. -/
+theorem C04_pack_classify (eb mb : Nat) (s : Bool) (scale : Int) (fb frac : Nat)
+    (hfb : fb ≤ mb) (hfr : frac < 2 ^ fb)
+    (hlo : 1 ≤ scale + ((2 : Int) ^ (eb - 1) - 1)) (hhi : scale + ((2 : Int) ^ (eb - 1) - 1) ≤ (2 : Int) ^ eb - 2) :
+    classifyIeee eb mb (packIeee eb mb s scale fb frac) = .fin s scale (frac * 2 ^ (mb - fb)) := by
+  unfold packIeee classifyIeee
+  simp only
+  generalize hB : (2 : Int) ^ (eb - 1) - 1 = B at *
+  have hE : ∃ Eb : Nat, (scale + B).toNat = Eb ∧ (Eb : Int) = scale + B ∧ 1 ≤ Eb ∧ Eb + 2 ≤ 2 ^ eb := by
+    refine ⟨(scale + B).toNat, rfl, by omega, by omega, ?_⟩
+    have : ((2 ^ eb : Nat) : Int) = (2 : Int) ^ eb := by push_cast; rfl
+    omega
+  obtain ⟨Eb, hEb, hEbz, hE1, hE2⟩ := hE
+  rw [hEb]
+  have hF : frac * 2 ^ (mb - fb) < 2 ^ mb := by
+    have : 2 ^ mb = 2 ^ fb * 2 ^ (mb - fb) := by rw [← Nat.pow_add]; congr 1; omega
+    rw [this]; exact Nat.mul_lt_mul_of_pos_right hfr (Nat.two_pow_pos _)
+  set F := frac * 2 ^ (mb - fb) with hFdef
+  set S : Nat := if s then 1 else 0 with hS
+  have hSle : S ≤ 1 := by rw [hS]; split <;> omega
+  have hpm : 0 < 2 ^ mb := Nat.two_pow_pos _
+  have hpe : 0 < 2 ^ eb := Nat.two_pow_pos _
+  have hsplit : 2 ^ (eb + mb) = 2 ^ eb * 2 ^ mb := Nat.pow_add ..
+  -- the three fields
+  have hM : (S * 2 ^ (eb + mb) + Eb * 2 ^ mb + F) % 2 ^ mb = F := by
+    rw [hsplit]
+    have : S * (2 ^ eb * 2 ^ mb) + Eb * 2 ^ mb + F = F + 2 ^ mb * (S * 2 ^ eb + Eb) := by ring
+    rw [this, Nat.add_mul_mod_self_left, Nat.mod_eq_of_lt hF]
+  have hEf : ((S * 2 ^ (eb + mb) + Eb * 2 ^ mb + F) >>> mb) % 2 ^ eb = Eb := by
+    rw [Nat.shiftRight_eq_div_pow, hsplit]
+    have : S * (2 ^ eb * 2 ^ mb) + Eb * 2 ^ mb + F = F + 2 ^ mb * (Eb + 2 ^ eb * S) := by ring
+    rw [this, Nat.add_mul_div_left _ _ hpm, Nat.div_eq_of_lt hF, Nat.zero_add, Nat.add_mul_mod_self_left,
+      Nat.mod_eq_of_lt (by omega)]
+  have hSg : (S * 2 ^ (eb + mb) + Eb * 2 ^ mb + F).testBit (eb + mb) = s := by
+    rw [Nat.testBit_eq_decide_div_mod_eq]
+    have hrest : Eb * 2 ^ mb + F < 2 ^ (eb + mb) := by
+      rw [hsplit]
+      have : (Eb + 1) * 2 ^ mb ≤ 2 ^ eb * 2 ^ mb := Nat.mul_le_mul_right _ (by omega)
+      have : (Eb + 1) * 2 ^ mb = Eb * 2 ^ mb + 2 ^ mb := by ring
+      omega
+    have : S * 2 ^ (eb + mb) + Eb * 2 ^ mb + F = (Eb * 2 ^ mb + F) + 2 ^ (eb + mb) * S := by ring
+    rw [this, Nat.add_mul_div_left _ _ (Nat.two_pow_pos _), Nat.div_eq_of_lt hrest, Nat.zero_add]
+    rw [hS]; cases s <;> simp
+  rw [hM, hEf, hSg]
+  have h1 : ¬ Eb = 2 ^ eb - 1 := by omega
+  have h2 : ¬ Eb = 0 := by omega
+  simp only [h1, h2, if_false]
+  congr 1
+  omega
+
+/-- The packed pattern denotes exactly the triple's value (so to_double() is exact under the guard). -/
+theorem C04_pack_value (eb mb : Nat) (s : Bool) (scale : Int) (fb frac : Nat)
+    (hfb : fb ≤ mb) (hfr : frac < 2 ^ fb)
+    (hlo : 1 ≤ scale + ((2 : Int) ^ (eb - 1) - 1)) (hhi : scale + ((2 : Int) ^ (eb - 1) - 1) ≤ (2 : Int) ^ eb - 2) :
+    ieeeVal eb mb (packIeee eb mb s scale fb frac)
+      = some (let m : ℚ := (1 + (frac : ℚ) / ((2 ^ fb : Nat) : ℚ)) * pow2 scale; if s then -m else m) := by
+  have hc := C04_pack_classify eb mb s scale fb frac hfb hfr hlo hhi
+  have := C03_classifyIeee_exact' eb mb _ s scale _ hc
+  rw [this]
+  congr 1
+  unfold srcVal'
+  have hmb : (2 ^ mb : Nat) = 2 ^ fb * 2 ^ (mb - fb) := by rw [← Nat.pow_add]; congr 1; omega
+  have : ((frac * 2 ^ (mb - fb) : Nat) : ℚ) / ((2 ^ mb : Nat) : ℚ) = (frac : ℚ) / ((2 ^ fb : Nat) : ℚ) := by
+    rw [hmb]; push_cast
+    have p1 : (0 : ℚ) < 2 ^ (mb - fb) := by positivity
+    have p2 : (0 : ℚ) < 2 ^ fb := by positivity
+    field_simp
+  simp only [this]
+
+/-- non-vacuity: posit-like triple (+, scale 3, frac 0b101 on 3 bits) packed as binary64 is 0x402a000000000000 = 13.0 -/
+example : packIeee 11 52 false 3 3 5 = 0x402a000000000000 := by decide
+
+/-- the model of to_double()/to_float() on a non-special encoding IS `packIeee` of the decoded triple -/
+theorem C04_toIeee_eq_pack (n es eb mb a : Nat) (h0 : a % 2 ^ n ≠ 0) (h1 : a % 2 ^ n ≠ 2 ^ (n - 1)) :
+    toIeee n es eb mb a =
+      packIeee eb mb (decode n es (a % 2 ^ n)).sign (decode n es (a % 2 ^ n)).scale
+        (decode n es (a % 2 ^ n)).fb (decode n es (a % 2 ^ n)).frac := by
+  unfold toIeee packIeee
+  simp only [h0, h1, if_false]
+
+/-- special encodings: zero reads back as +0.0, NaR as a quiet NaN pattern -/
+theorem C04_toIeee_special (n es eb mb : Nat) (hn : 0 < n) (hmb : 0 < mb) :
+    toIeee n es eb mb 0 = 0 ∧ ieeeIsNaN eb mb (toIeee n es eb mb (2 ^ (n - 1))) = true := by
+  have hlt : 2 ^ (n - 1) < 2 ^ n := Nat.pow_lt_pow_right (by decide) (by omega)
+  have hp : 0 < 2 ^ (n - 1) := Nat.two_pow_pos _
+  refine ⟨by unfold toIeee; simp, ?_⟩
+  unfold toIeee ieeeIsNaN
+  simp only [Nat.mod_eq_of_lt hlt]
+  rw [if_neg (by omega)]
+  simp only [if_true]
+  have hq : 2 ^ (mb - 1) < 2 ^ mb := Nat.pow_lt_pow_right (by decide) (by omega)
+  have hpe : 0 < 2 ^ eb := Nat.two_pow_pos _
+  have hdisj : ((2 ^ eb - 1) <<< mb ||| 2 ^ (mb - 1)) = (2 ^ eb - 1) * 2 ^ mb + 2 ^ (mb - 1) := by
+    rw [Nat.shiftLeft_eq, Nat.mul_comm]
+    exact (Nat.two_pow_add_eq_or_of_lt hq _).symm ▸ rfl
+  rw [hdisj]
+  have e1 : ((2 ^ eb - 1) * 2 ^ mb + 2 ^ (mb - 1)) >>> mb = 2 ^ eb - 1 := by
+    rw [Nat.shiftRight_eq_div_pow, Nat.add_comm, Nat.mul_comm, Nat.add_mul_div_left _ _ (Nat.two_pow_pos _),
+      Nat.div_eq_of_lt hq, Nat.zero_add]
+  have e2 : ((2 ^ eb - 1) * 2 ^ mb + 2 ^ (mb - 1)) % 2 ^ mb = 2 ^ (mb - 1) := by
+    rw [Nat.add_comm, Nat.mul_comm, Nat.add_mul_mod_self_left, Nat.mod_eq_of_lt hq]
+  rw [e1, e2, Nat.mod_eq_of_lt (by omega)]
+  have : 2 ^ (mb - 1) ≠ 0 := by positivity
+  simp [this]
